@@ -22,14 +22,14 @@ rm -f $SUB/zz_demo_test.go
 git apply $SRC/patch.diff
 git checkout -q go.mod 2>/dev/null
 cd /verif
-QUICK=$(VERIF_REPO=$WT ./check $P quick 2>&1 | tail -4)
+QUICK=$(VERIF_EVIDENCE_DIR=/tmp/verif_scratch_evidence VERIF_REPLAY_DIR=/tmp/verif_scratch_replays VERIF_REPO=$WT ./check $P quick 2>&1 | tail -4)
 # "concrete" = a VIOLATION line with a failing input; "tie-only" = only `no-failing-input-found`
 # (note: when a proof obligation such as a source pin breaks, the quick command already runs the thorough generators)
 kind() { if echo "$1" | grep VIOLATION | grep -qv no-failing-input-found; then echo concrete; elif echo "$1" | grep -q VIOLATION; then echo tie-only; else echo none; fi; }
 KQ=$(kind "$QUICK")
 CAUGHT="quick:$KQ"; THOR=""
 if [ "$KQ" != concrete ]; then
-  THOR=$(VERIF_REPO=$WT ./check $P thorough 2>&1 | tail -4)
+  THOR=$(VERIF_EVIDENCE_DIR=/tmp/verif_scratch_evidence VERIF_REPLAY_DIR=/tmp/verif_scratch_replays VERIF_REPO=$WT ./check $P thorough 2>&1 | tail -4)
   KT=$(kind "$THOR")
   if [ "$KT" = concrete ]; then CAUGHT="thorough:concrete"; elif [ "$KQ" = tie-only ] || [ "$KT" = tie-only ]; then CAUGHT="tie-only"; else CAUGHT=missed; fi
 fi
